@@ -268,9 +268,20 @@ EXPR_WRAPPERS = {
     ('solutions.rs::solve_all', 'sn.borrow().goal.clone()'): 'verif_goal_of(&sn)',
     # line_reader is generic over AsRef<Path> (File::open + BufReader::lines): external, with the assumed specification that
     # it yields the lines of the named file (spec/io.rs)
+    # derived PartialEq of Goal against the variant without fields
+    ('solution_node.rs::next_solution', 'body == Goal::Nil'): 'goal_is_nil(&body)',
     ('rule_reader.rs::read_facts_and_rules', 'line_reader(file_name)'): 'verif_line_reader(file_name)',
     ('rule_reader.rs::read_facts_and_rules', 'long_line += &line;'): 'str_append_line(&mut long_line, &line);',
 }
+
+
+def sig_seq0(toks, k, n, hi):
+    """indices of the next n significant tokens starting at k"""
+    res = []
+    while len(res) < n and k < hi:
+        res.append(k)
+        k = next_sig(toks, k)
+    return res
 
 
 def norm_ws(s):
@@ -278,8 +289,10 @@ def norm_ws(s):
 
 
 class FnEmitter:
-    def __init__(self, repo, srcfile, fnpath, mode, counts, info, canary=False):
+    def __init__(self, repo, srcfile, fnpath, mode, counts, info, canary=False, heap_fns=(), nocontract=False):
         self.canary = canary
+        self.heap_fns = set(heap_fns)
+        self.nocontract = nocontract
         self.repo = repo
         self.srcfile = srcfile
         self.fnpath = fnpath
@@ -293,7 +306,7 @@ class FnEmitter:
         base_line = lineno(src, item.start)
         toks = lex(text)
         cpath = contract_path(self.srcfile, self.fnpath)
-        con = Contract(cpath)
+        con = Contract(cpath if not self.nocontract else cpath + '.none')
         key = '%s::%s' % (self.srcfile, self.fnpath)
         rel_c = os.path.relpath(cpath, VERIF)
 
@@ -352,6 +365,18 @@ class FnEmitter:
                             continue
                         edits.append((t.start, t.end, fname + '_', None))
                 self.counts['R9'] = self.counts.get('R9', 0) + 1
+
+        # R15a: a function that works on solution nodes (unit directive `heap-functions`) gets the ghost node heap as
+        # its last parameter.
+        in_heap = fname in self.heap_fns
+        if in_heap:
+            if popen is None:
+                raise Undecided('cannot find the parameter list of %s' % key)
+            pclose = match_close(toks, popen)
+            lastp = prev_sig(toks, pclose)
+            sep = '' if toks[lastp].text in ('(', ',') else ', '
+            edits.append((toks[pclose].start, toks[pclose].start, sep + 'Tracked(heap): Tracked<&mut Heap>', None))
+            self.counts['R15'] = self.counts.get('R15', 0) + 1
 
         # R7: name the result
         arrow = None
@@ -548,6 +573,173 @@ class FnEmitter:
                         edits.append((toks[pv].end, toks[nx].end, ')', None))
                         self.counts['R12'] = self.counts.get('R12', 0) + 1
             k += 1
+
+
+        # R15: the node heap.  `Rc<RefCell<SolutionNode>>` cannot be declared to Verus (RefCell has no specification, the
+        # nodes form a graph with parent links).  In a function named by the unit directive `heap-functions` the contents
+        # of the nodes are kept in a ghost heap (spec/solver.rs) that is passed along, and every access through the
+        # RefCell is turned into a call of an accessor whose contract says what the access does to that heap:
+        #   R15a  signature:   f(args)                        -> f(args, Tracked(heap): Tracked<&mut Heap>)
+        #   R15b  call:        g(args), g a heap function     -> g(args, Tracked(heap))
+        #   R15c  borrow:      let mut R = N.borrow_mut();    -> nd_borrow_mut(&N, Tracked(heap));     (R stands for N from here on)
+        #   R15d  write:       R.F = E;   /  R.F += E;        -> nd_set_F(&N, E, Tracked(heap));  /  nd_set_F(&N, nd_F(&N, Tracked(&*heap)) + (E), Tracked(heap));
+        #   R15e  read:        R.F   /  R.M()                 -> nd_F(&N, Tracked(&*heap))  /  nd_call_M(&N, Tracked(heap))
+        #   R15f  short read:  N.borrow().F                   -> nb_F(&N, Tracked(&*heap))
+        #   R15g  scope end:   the block in which R is declared must not be left by falling through: nd_scope_end()
+        #         (requires false) is placed at its end - the RefMut is dropped at a `return` in all the functions concerned,
+        #         and the contract releases the ghost lock there ([at returns-value]).
+        if in_heap or self.heap_fns:
+            k = bopen
+            while k < bclose:
+                t = toks[k]
+                if t.kind == 'id' and t.text in self.heap_fns:
+                    pv = prev_sig(toks, k)
+                    nx = next_sig(toks, k)
+                    if toks[nx].kind == 'p' and toks[nx].text == '(' and not (toks[pv].kind == 'p' and toks[pv].text in ('.', '::')) and not (toks[pv].kind == 'id' and toks[pv].text == 'fn'):
+                        if not in_heap:
+                            raise Undecided('unsupported construct: %s calls the heap function %s but is not a heap function itself' % (key, t.text))
+                        cl = match_close(toks, nx)
+                        lastp = prev_sig(toks, cl)
+                        sep = '' if toks[lastp].text in ('(', ',') else ', '
+                        edits.append((toks[cl].start, toks[cl].start, sep + 'Tracked(heap)', None))
+                        self.counts['R15'] = self.counts.get('R15', 0) + 1
+                        # contract sections [before heap-call F] / [after heap-call F]: around the statement that contains the call,
+                        # when that statement is `let .. = F(..);` or `F(..);`
+                        bc = block_text('before heap-call %s' % t.text)
+                        ac = block_text('after heap-call %s' % t.text)
+                        if bc or ac:
+                            nx2 = next_sig(toks, cl)
+                            q0 = k - 1
+                            depth0 = 0
+                            while q0 > bopen:
+                                tq = toks[q0]
+                                if tq.kind == 'p' and tq.text in ')]':
+                                    depth0 += 1
+                                elif tq.kind == 'p' and tq.text in '([':
+                                    depth0 -= 1
+                                elif tq.kind == 'p' and tq.text in (';', '{', '}') and depth0 <= 0:
+                                    break
+                                q0 -= 1
+                            first = next_sig(toks, q0)
+                            simple = toks[nx2].kind == 'p' and toks[nx2].text == ';' and (first == k or (toks[first].kind == 'id' and toks[first].text == 'let'))
+                            if not simple:
+                                raise Undecided('unsupported construct: the call of %s in %s is not a statement of its own (contract has [before/after heap-call %s])' % (t.text, key, t.text))
+                            if bc:
+                                edits.append((toks[first].start, toks[first].start, ('', bc, '\n'), 'block'))
+                            if ac:
+                                edits.append((toks[nx2].end, toks[nx2].end, ('\n', ac, ''), 'block2'))
+                k += 1
+        scope_end_at_bclose = False
+        if in_heap:
+            refmuts = {}
+            k = bopen
+            while k < bclose:
+                t = toks[k]
+                # R15c
+                if t.kind == 'id' and t.text == 'let':
+                    sq = sig_seq0(toks, k, 11, bclose)
+                    tx = [toks[i].text for i in sq]
+                    if len(tx) >= 10 and tx[1] == 'mut' and tx[3] == '=' and tx[5:10] == ['.', 'borrow_mut', '(', ')', ';'] and toks[sq[2]].kind == 'id' and toks[sq[4]].kind == 'id':
+                        R, N = tx[2], tx[4]
+                        if R in refmuts and refmuts[R] != N:
+                            raise Undecided('unsupported construct: two RefMut bindings named %s in %s' % (R, key))
+                        refmuts[R] = N
+                        edits.append((t.start, toks[sq[9]].end, 'nd_borrow_mut(&%s, Tracked(heap));' % N, None))
+                        self.counts['R15'] = self.counts.get('R15', 0) + 1
+                        ab = block_text('after heap-borrow')
+                        if ab:
+                            edits.append((toks[sq[9]].end, toks[sq[9]].end, ('\n', ab, ''), 'block2'))
+                        # R15g: end of the enclosing block
+                        depth = 0
+                        q = k
+                        while q < bclose:
+                            tq = toks[q]
+                            if tq.kind == 'p' and tq.text == '{':
+                                depth += 1
+                            elif tq.kind == 'p' and tq.text == '}':
+                                if depth == 0:
+                                    break
+                                depth -= 1
+                            q += 1
+                        lastq = prev_sig(toks, q)
+                        semi = '' if toks[lastq].text in (';', '}', '{') else ';'
+                        edits.append((toks[q].start, toks[q].start, semi + ' nd_scope_end() ', None))
+                        if q == bclose:
+                            scope_end_at_bclose = True
+                        k = sq[9]
+                k += 1
+            k = bopen
+            while k < bclose:
+                t = toks[k]
+                if t.kind == 'id' and t.text in refmuts:
+                    pv = prev_sig(toks, k)
+                    d = next_sig(toks, k)
+                    if toks[d].kind == 'p' and toks[d].text == '.' and not (toks[pv].kind == 'p' and toks[pv].text == '.'):
+                        f = next_sig(toks, d)
+                        N = refmuts[t.text]
+                        if toks[f].kind != 'id':
+                            raise Undecided('unsupported construct: use of the RefMut %s in %s' % (t.text, key))
+                        F = toks[f].text
+                        a = next_sig(toks, f)
+                        stmt_start = toks[pv].kind == 'p' and toks[pv].text in (';', '{', '}')
+                        a2 = next_sig(toks, a)
+                        is_assign = toks[a].kind == 'p' and toks[a].text == '=' and not (toks[a2].kind == 'p' and toks[a2].text == '=' and toks[a2].start == toks[a].end)
+                        is_plus = toks[a].kind == 'p' and toks[a].text == '+' and toks[a2].kind == 'p' and toks[a2].text == '=' and toks[a2].start == toks[a].end
+                        if stmt_start and (is_assign or is_plus):
+                            # R15d: find the terminating ';' at depth 0
+                            q = a2 if is_assign else next_sig(toks, a2)
+                            depth = 0
+                            while q < bclose:
+                                tq = toks[q]
+                                if tq.kind == 'p' and tq.text in '([{':
+                                    depth += 1
+                                elif tq.kind == 'p' and tq.text in ')]}':
+                                    depth -= 1
+                                elif tq.kind == 'p' and tq.text == ';' and depth == 0:
+                                    break
+                                q += 1
+                            if is_assign:
+                                edits.append((t.start, toks[a].end, 'nd_set_%s(&%s,' % (F, N), None))
+                                edits.append((toks[q].start, toks[q].end, ', Tracked(heap));', None))
+                            else:
+                                edits.append((t.start, toks[a2].end, 'nd_set_%s(&%s, nd_%s(&%s, Tracked(&*heap)) + (' % (F, N, F, N), None))
+                                edits.append((toks[q].start, toks[q].end, '), Tracked(heap));', None))
+                            self.counts['R15'] = self.counts.get('R15', 0) + 1
+                            # contract sections [before heap-write] / [after heap-write] are placed around every such write
+                            bw = block_text('before heap-write')
+                            if bw:
+                                edits.append((t.start, t.start, ('', bw, '\n'), 'block'))
+                            aw = block_text('after heap-write')
+                            if aw:
+                                edits.append((toks[q].end, toks[q].end, ('\n', aw, ''), 'block2'))
+                            k = a2
+                        elif toks[a].kind == 'p' and toks[a].text == '(':
+                            cl = match_close(toks, a)
+                            if next_sig(toks, a) != cl:
+                                raise Undecided('unsupported construct: method call with arguments on the RefMut %s in %s' % (t.text, key))
+                            edits.append((t.start, toks[cl].end, 'nd_call_%s(&%s, Tracked(heap))' % (F, N), None))
+                            self.counts['R15'] = self.counts.get('R15', 0) + 1
+                            k = cl
+                        else:
+                            # R15e
+                            edits.append((t.start, toks[f].end, 'nd_%s(&%s, Tracked(&*heap))' % (F, N), None))
+                            self.counts['R15'] = self.counts.get('R15', 0) + 1
+                            k = f
+                    elif not (toks[pv].kind == 'p' and toks[pv].text == '.') and not (toks[pv].kind == 'id' and toks[pv].text == 'mut'):
+                        raise Undecided('unsupported construct: the RefMut %s is used as a value in %s' % (t.text, key))
+                # R15f
+                if t.kind == 'id' and t.text == 'borrow':
+                    pd = prev_sig(toks, k)
+                    pn = prev_sig(toks, pd)
+                    sq = sig_seq0(toks, k, 5, bclose)
+                    tx = [toks[i].text for i in sq]
+                    if toks[pd].text == '.' and toks[pn].kind == 'id' and len(tx) >= 5 and tx[1:4] == ['(', ')', '.'] and toks[sq[4]].kind == 'id':
+                        ppn = prev_sig(toks, pn)
+                        if not (toks[ppn].kind == 'p' and toks[ppn].text == '.'):
+                            edits.append((toks[pn].start, toks[sq[4]].end, 'nb_%s(&%s, Tracked(&*heap))' % (tx[4], toks[pn].text), None))
+                            self.counts['R15'] = self.counts.get('R15', 0) + 1
+                            k = sq[4]
+                k += 1
 
         isolated = not any('loop_isolation(false)' in l for _, l in (con.get('attr') or []))
 
@@ -803,6 +995,38 @@ class FnEmitter:
                     raise Undecided('unsupported construct: %s does not end in a return statement (contract has [at returns])' % key)
             else:
                 raise Undecided('unsupported construct: %s ends in a tail expression (contract has [at returns])' % key)
+        rtv = block_text('at returns-value')
+        if rtv:
+            # every `return E` becomes `{ let verif_ret = E; <block>; return verif_ret; }`: the block sees the value that is returned
+            # (and runs after E has been evaluated, which is when a local RefMut is dropped)
+            for k in range(bopen + 1, bclose):
+                t = toks[k]
+                if t.kind == 'id' and t.text == 'return':
+                    q = next_sig(toks, k)
+                    if toks[q].kind == 'p' and toks[q].text in (';', '}', ','):
+                        raise Undecided('unsupported construct: `return` without a value in %s (contract has [at returns-value])' % key)
+                    depth = 0
+                    while q < bclose:
+                        tq = toks[q]
+                        if tq.kind == 'p' and tq.text in '([{':
+                            depth += 1
+                        elif tq.kind == 'p' and tq.text in ')]}':
+                            if depth == 0:
+                                break
+                            depth -= 1
+                        elif tq.kind == 'p' and tq.text in (';', ',') and depth == 0:
+                            break
+                        q += 1
+                    endtok = prev_sig(toks, q)
+                    edits.append((t.start, t.end, '{ let verif_ret =', None))
+                    edits.append((toks[endtok].end, toks[endtok].end, ('; \n', rtv, 'return verif_ret; }'), 'block2'))
+            last = prev_sig(toks, bclose)
+            if scope_end_at_bclose:
+                pass
+            elif toks[last].kind == 'p' and toks[last].text == '}':
+                edits.append((toks[bclose].start, toks[bclose].start, ('\n', [('    vstd::pervasive::unreached()', {'k': 'gen', 'fn': key})], ''), 'block'))
+            elif not (toks[last].kind == 'p' and toks[last].text == ';'):
+                raise Undecided('unsupported construct: %s ends in a tail expression (contract has [at returns-value])' % key)
         st = block_text('at body.start')
         if st:
             edits.append((toks[bopen].end, toks[bopen].end, ('\n', st, ''), 'block2'))
@@ -1007,6 +1231,8 @@ def build(unit, repo_root, diff=False, canary=False, extra_stubs=()):
     header_done = False
     directives = [l.strip().split() for l in open(upath).read().split('\n') if l.strip() and not l.strip().startswith('#')]
     proved_here = set((d[1], d[2]) for d in directives if d[0] in ('prove', 'prove?') and len(d) >= 3)
+    heap_fns = [x for d in directives if d[0] == 'heap-functions' for x in d[1:]]
+    info['heap_functions'] = heap_fns
     unit_lines = open(upath).read().split('\n') + ['stub %s %s' % (f, n) for f, n in extra_stubs]
     info['auto_stubbed'] = ['%s::%s' % (f, n) for f, n in extra_stubs]
     for raw in unit_lines:
@@ -1035,12 +1261,20 @@ def build(unit, repo_root, diff=False, canary=False, extra_stubs=()):
             emit_static(repo, out, parts[1], parts[2], counts, info)
         elif cmd == 'macro':
             emit_macro(repo, out, parts[1], parts[2], info)
+        elif cmd == 'heap-functions':
+            continue
         elif cmd in ('stub', 'stub?') and (parts[1], parts[2]) in proved_here:
             continue   # proved in this very unit: the body's own contract is used
+        elif cmd == 'abstract':
+            # signature only, no contract at all: an arbitrary total function of its arguments (the unit's obligations
+            # must hold whatever it returns); its own contract, if it has one, is deliberately not used here
+            FnEmitter(repo, parts[1], parts[2], 'stub', counts, info, canary=canary, heap_fns=heap_fns, nocontract=True).emit(out)
+            info['functions'][-1]['mode'] = 'abstract'
+            info.setdefault('abstract', []).append('%s::%s' % (parts[1], parts[2]))
         elif cmd in ('prove', 'stub', 'prove?', 'stub?'):
             # a trailing '?' marks a function that may be absent (e.g. a helper introduced by a repair)
             try:
-                FnEmitter(repo, parts[1], parts[2], cmd.rstrip('?'), counts, info, canary=canary).emit(out)
+                FnEmitter(repo, parts[1], parts[2], cmd.rstrip('?'), counts, info, canary=canary, heap_fns=heap_fns).emit(out)
             except Undecided as e:
                 if cmd.endswith('?') and 'lost anchor' in str(e) and 'not found' in str(e):
                     info.setdefault('absent', []).append('%s::%s' % (parts[1], parts[2]))
